@@ -66,6 +66,17 @@ def rule_progress(ctx: Ctx):
     ctx.require(len(cps) == 1, "R-C10-2", "working copy (`copy = self.copy()` or another freshly allocated copy of self) not found")
     cp = norm(cps[0].targets[0])
     ctx.check(len(stores_to(f.node, cp)) == 1, "R-C10-2", f, cps[0], "the fast alignment consumes a private copy of the continuum (never rebound)", key="copy")
+    if norm(cps[0].value) == f"{sn}.copy()":
+        # ... and that copy holds every annotator and unit: copy() must carry the whole unit dictionary (an annotator without units has a slot too)
+        from .c13 import _carried_fields
+        cpf = ctx.fn("Continuum.copy", "R-C10-2")
+        try:
+            carried = _carried_fields(ctx, cpf)
+            ctx.check("_annotations" in carried, "R-C10-2", cpf, carried.get("_annotations"), "copy() carries the complete annotator -> units dictionary",
+                      bad_detail="copy() does not carry self._annotations as a whole (units re-added one by one lose the annotators without units): the working "
+                                 "copy of the fast alignment has fewer slots than the continuum", key="copy-faithful")
+        except AnalysisError as e:
+            ctx.undecided("R-C10-2", cpf, None, f"copy(): {e.msg}", key="copy-faithful")
     loops = [w for w in walk_no_nested(f.node) if isinstance(w, ast.While) and norm(w.test) == cp]
     ctx.require(len(loops) == 1, "R-C10-1", "`while copy:` loop not found")
     W = loops[0]
